@@ -189,6 +189,9 @@ def run(ctx, cases_override=None):
             bad += res["bad"]
             events += res["events"]
             traces += res["traces"]
+    # cases outside the 8-dimensional configuration product: table-length, field-width, sector-count, huge-member, name-set
+    nextra = sum(1 for l in open(cases) if '"nfiles"' in l)
+    nprod = ncases - nextra
     cov = {
         "traces_validated_against_impl": traces,
         "samples": samples,
@@ -196,11 +199,13 @@ def run(ctx, cases_override=None):
         "distinct_nontrivial": len(distinct),
         "rule": "one evaluation = one recorded event (Build/Open/File with 4 spelling reads/Absent/List) judged by TLC; "
                 "non-trivial = distinct (configuration, length class, content class) of File events; "
-                + (f"configurations enumerated this run: {ncases} of the 31104 of the property's quantifier "
+                + (f"configurations enumerated this run: {nprod} of the 31104 of the property's quantifier "
                    "(thorough: full product of 6 dimensions, (listfile, tablecomp) by coordinate sum + seed -- seeds s..s+3 together cover all 31104)"
                    if ctx.thorough else
-                   f"configurations enumerated this run: {ncases} of 31104 (quick slice + seed-rotated draws)"),
-        "configurations_enumerated": ncases,
+                   f"configurations enumerated this run: {nprod} of 31104 (quick slice + seed-rotated draws)")
+                + f"; plus {nextra} archives of the table-length / field-width / sector-count / huge-member / colliding-name-set families",
+        "configurations_enumerated": nprod,
+        "extra_family_archives": nextra,
         "configurations_in_quantifier": 31104,
         "cases_generated_by_tlc": ncases,
         "events_by_kind": kinds,
